@@ -192,6 +192,12 @@ func c12(c *h.Ctx) {
 		add(cancelSpec{K: 1 + pi%2, W: 0, Mode: "direct", Point: "during-command", Cancels: "once", Via: "runner", Cmd: "sleep", Prelude: pre})
 		add(cancelSpec{K: pi % 2, W: 1, Mode: "pipeline", Point: []string{"after-finished", "during-command", "cond-error"}[pi], Cancels: "once", Via: []string{"scheduler", "scheduler", "cond"}[pi], Cmd: "sleep", Prelude: pre})
 	}
+	// several callers at once while a command keeps reporting: none of them is back before the command is gone
+	add(cancelSpec{K: 1, W: 1, Mode: "pipeline", Point: "during-command", Cancels: "concurrent", Via: "scheduler", Cmd: "ticker"})
+	add(cancelSpec{K: 2, W: 0, Mode: "direct", Point: "during-command", Cancels: "concurrent", Via: "runner", Cmd: "ticker"})
+	// tasks whose timeout is present and zero, cancelled 300 ms into the run
+	add(cancelSpec{K: 1, W: 0, Mode: "direct", Point: "free", Cancels: "once", Via: "runner", Cmd: "ticker", TaskTimeout: true, Jitter: 300000})
+	add(cancelSpec{K: 2, W: 1, Mode: "pipeline", Point: "free", Cancels: "once", Via: "scheduler", Cmd: "ticker", TaskTimeout: true, Jitter: 300000})
 	// the task's own condition is a running command too
 	for _, mode := range []string{"direct", "pipeline"} {
 		for _, k := range []int{1, 2} {
